@@ -22,7 +22,7 @@ W, Q = "windowPublish", "queuePublishTx"
 
 def mentions_len(t, reg):
     for x in subterms(t):
-        if isinstance(x, tuple) and x[0] == "call" and x[1] == ("builtin", "len") and len(x[2]) == 1 \
+        if isinstance(x, tuple) and len(x) > 2 and x[0] == "call" and x[1] == ("builtin", "len") and isinstance(x[2], tuple) and len(x[2]) == 1 \
                 and isinstance(x[2][0], tuple) and x[2][0][:2] == ("reg", reg):
             return True
     return False
